@@ -182,6 +182,10 @@ def run_skeleton(repo: Repo, sk: tmpl.Skeleton, params: dict, entry: dict, unrol
     flow = Flow(repo, construct=sk.construct, self_attrs={}, modconst={}, unroll=unroll, template=True)
     flow.free_ok = {n for n, _ in sk.constants} | set(helpers or {})
     flow.template_helpers = dict(helpers or {})  # type: ignore[attr-defined]
+    # names the emitted code binds at its top level, next to the function under analysis
+    top = [n for n in tree.body if isinstance(n, (ast.Assign, ast.AnnAssign))]
+    flow.module_lists = {t.id for n in top for t in ([n.target] if isinstance(n, ast.AnnAssign) else n.targets) if isinstance(t, ast.Name) and isinstance(n.value, (ast.List, ast.Dict, ast.Set))}  # type: ignore[attr-defined]
+    flow.free_ok |= {t.id for n in top for t in ([n.target] if isinstance(n, ast.AnnAssign) else n.targets) if isinstance(t, ast.Name)}
     st, out = entry_state(flow, entry, {"state": "state", out_name: "pairs"})
     exits = flow.run(stmts, st, result_var=result_var)
     variant = _variant(params, entry) + ("{" + ",".join(f"{c}={'T' if d else 'F'}" for c, d in sk.decisions) + "}" if sk.decisions else "")
